@@ -37,6 +37,20 @@ func init() {
 				c04Assignments(ex, exec, "msgKey") == 1 && c04Assignments(ex, exec, "q") == 1, true,
 				"Cache.Exec: `q := qCtx.Q()` directly followed by `msgKey := getMsgKey(q)`, neither assigned again")
 		}
+		if exec != nil {
+			// what is stored once the rest of the sequence has returned: only a response that was not in the context
+			// when the rest started (`rBefore`, read after this cache's own lookup and directly in front of ExecNext)
+			var top []string
+			for _, st := range exec.Body.List {
+				top = append(top, ex.str(st))
+			}
+			i := indexOf(top, "rBefore := qCtx.R()")
+			ex.setBool("c04ExecStoresOnlyNewResponse", i >= 0 && i+2 < len(top) && top[i+1] == "err := next.ExecNext(ctx, qCtx)" &&
+				strings.HasPrefix(top[i+2], "if r := qCtx.R(); r != nil && rBefore != r {") &&
+				c04Assignments(ex, exec, "rBefore") == 1 && strings.Count(strings.Join(top, " "), "saveRespToCache(") == 1 &&
+				strings.Contains(top[i+2], "saveRespToCache(msgKey, r, "), true,
+				"Cache.Exec: `rBefore := qCtx.R()` directly in front of `next.ExecNext`, and the only store is behind `r != nil && rBefore != r`")
+		}
 		if exec != nil && lazy != nil && get != nil && save != nil {
 			// every call that reaches the backend takes the key as its first argument
 			firstArgs := func(fd *ast.FuncDecl) (n int, ok bool) {
